@@ -153,7 +153,7 @@ func propC15(c *Ctx) {
 	c.Rule("C15.R2", func() {
 		fn := c.Method(childKeeper, "L2OracleHandler", "UpdateOracle")
 		o := c.Ob("C15.R2", "L2OracleHandler.UpdateOracle: height gate, then ValidateVoteExtensions(height-1, L1 chain id, decoded) == nil, then votes, aggregation, timestamp presence, WritePrices")
-		po := PO{Params: []string{"k", "ctx", "height", "bz"}, NoInline: []string{"ValidateVoteExtensions", "GetOracleVotes", "WritePrices", "GetLastHeight", "L1ChainId"}}
+		po := PO{Params: []string{"k", "ctx", "height", "bz"}, NoInline: []string{"ValidateVoteExtensions", "GetOracleVotes", "WritePrices", "GetLastHeight"}}
 		nW := 0
 		for _, p := range c.Paths(fn, po) {
 			o.Paths++
@@ -185,7 +185,11 @@ func propC15(c *Ctx) {
 				if a[2].Key() != "(int64(height) - 1)" {
 					o.Fail(c.evPos(ev), "signatures checked for height "+a[2].Key()+", want int64(height)-1", c.Dump(p, i))
 				}
-				if a[3].Key() != "(opchild/keeper.Keeper).L1ChainId(k.Keeper, ctx).0" {
+				// the L1 chain id of the stored bridge info, loaded without error (whichever getter reads it)
+				if got := strip(a[3]); got.Key() != "(collections.Item[V]).Get(k.Keeper.BridgeInfo, ctx).0.L1ChainId" ||
+					!p.HasFact(i, func(at *Term, pol bool) bool {
+						return pol && eqAtom(at, "(collections.Item[V]).Get(k.Keeper.BridgeInfo, ctx).1", "nil")
+					}) {
 					o.Fail(c.evPos(ev), "chain id is "+trunc(a[3].Key(), 100), c.Dump(p, i))
 				}
 				if !strings.HasSuffix(a[4].Key(), "ExtendedCommitCodec).Decode(k.extendedCommitCodec, bz).0") {
